@@ -32,10 +32,9 @@ REQUIRED = ['ha_house_monotone', 'ha_house_monotone_general', 'ha_vote_monotone'
             'additive_winner_monotone', 'additive_winner_monotone_new', 'plurality_monotone_switch', 'plurality_monotone_new',
             'scorer_monotone', 'positional_monotone_lift', 'positional_monotone_new', 'approval_monotone_approve',
             'approval_monotone_new', 'score_sum_monotone_raise', 'score_sum_monotone_new',
-            'bucklin_monotone_lift', 'bucklin_monotone_bullet', 'copeland_monotone', 'minimax_monotone']
+            'bucklin_monotone_lift', 'bucklin_monotone_bullet', 'copeland_monotone', 'minimax_monotone',
+            'copeland_monotone_lift', 'copeland_monotone_bullet', 'minimax_monotone_lift', 'minimax_monotone_bullet']
 UNPROVED = ['schulze_monotone (beat-path strengths under Raised: needs the Floyd-Warshall correctness of widest_paths)',
-            'condorcet_lift_raised (the pairwise matrix of a lifted profile is Raised w.r.t. the base matrix; Copeland and minimax '
-            'are proved on the matrix level, the matrix relation is checked per case by the correspondence)',
             'bucklin_monotone for split_equal_rankings=True on profiles WITH shared ranks (permutation expansion not modelled)']
 NAMES = Names(prefix='c')
 PNAMES = Names(prefix='p')
@@ -208,18 +207,16 @@ def minimax_strict(prof, w, scorer):
         return False
 
     def worst(x):
+        # every ordered pair of candidates is scored, a pair nobody ranked counting zero against zero (fix 39ed002)
         vals = []
         for y in cs:
             if y == x:
-                continue
-            # votelib only sees pairs that occur in the dict: (y, x) occurs iff some ballot ranks y above x
-            if d[y][x] == 0:
                 continue
             if scorer == 'wv':
                 vals.append(d[y][x] if d[y][x] > d[x][y] else Fraction(0))
             else:
                 vals.append(d[y][x] - d[x][y])
-        return max(vals) if vals else None      # None = no defeat at all (-inf)
+        return max(vals) if vals else None      # None = no opponent at all (-inf)
 
     ww = worst(w)
     for y in cs:
